@@ -347,6 +347,10 @@ func syncLabels(kubeClient kubernetes.Interface, set *apps.StatefulSet, revision
 
 // adoptOrphanRevisions adopts any orphaned ControllerRevisions matched by set's Selector.
 func (ssc *StatefulSetController) adoptOrphanRevisions(set *apps.StatefulSet) error {
+	// a StatefulSet that is being deleted adopts nothing
+	if set.DeletionTimestamp != nil {
+		return nil
+	}
 	revisions, err := ssc.control.ListRevisions(set)
 	if err != nil {
 		return err
@@ -373,6 +377,9 @@ func (ssc *StatefulSetController) adoptOrphanRevisions(set *apps.StatefulSet) er
 		}
 		if fresh.UID != set.UID {
 			return fmt.Errorf("original StatefulSet %v/%v is gone: got uid %v, wanted %v", set.Namespace, set.Name, fresh.UID, set.UID)
+		}
+		if fresh.DeletionTimestamp != nil {
+			return fmt.Errorf("%v/%v has just been deleted at %v", set.Namespace, set.Name, fresh.DeletionTimestamp)
 		}
 		return ssc.control.AdoptOrphanRevisions(set, revisions)
 	}
